@@ -105,4 +105,37 @@ PROPS = {
         "must_hit": ["fault:deadline", "fault:cancel-at-step", "fault:parent-cancel-at-step", "fault:ended-at-entry", "fault:deadline-parent", "wake:sleep.ctx", "wake:future.deref.ctx", "handler_probe_ok", "shape:try", "shape:macro"],
         "race": False,
     },
+    "C03": {
+        "level": "fault_enumeration",
+        "design_ref": "DESIGN.md §5.6",
+        "technique": "deterministic simulation with fault injection: every single builtin-failure plan (site x kind) of generated try-nests, against a reference model of the try semantics",
+        "level_text": "For every generated try/catch/finally nest the fault space of builtin failures is enumerated completely at the single-fault level (each probe site x "
+                      "{error return, %w-wrapped error, panic with an error, panic with a non-error value, lisp value thrown from Go}) plus the fault-free plan and drawn "
+                      "multi-fault plans; the interpreter's result, thrown object (lisp values structurally, Go errors via errors.Is) and ordered trace are compared with a "
+                      "small reference interpreter of exactly the semantics in the statement. Programs are sampled (seeded), plans per program are exhaustive.",
+        "level_note": "Trusts the reference model (about 80 lines) and the canonical printer. Faults inside finally bodies are not generated (the statement does not say what they do). Single-threaded: no race binary.",
+        "rule": "one run = one seeded try-nest program (depth <= 5, up to ~60 nodes: probe!/probe-raw! sites, trace! effects, throws of 18 kinds of values including code-looking lists and "
+                "symbols, calls through 1-3 function levels, apply, user and library macros, let shadowing the catch symbol, reads of the catch symbol in handlers, finally bodies and after the form) "
+                "executed under the fault-free plan, EVERY single-fault plan and 2 (thorough: 12) drawn multi-fault plans. evaluations counts runs (programs); plans_executed counts executions. "
+                "non-trivial = the program has at least one probe site and a fault actually fired; distinct = distinct program text",
+        "assumptions": COMMON_ASSUMPTIONS[:1] + ["a raw types.Func that panics is outside the statement (no recovery promised)", "a panic with a non-error value inside a lib/call builtin is treated as a throw of that value"],
+        "must_hit": ["fault:err", "fault:err-wrapped", "fault:panic-err", "fault:panic-val", "fault:throw-val", "plans_with_fault"],
+        "race": False,
+    },
+    "C18": {
+        "level": "exploration",
+        "design_ref": "DESIGN.md §5.7",
+        "technique": "deterministic simulation of the debugger as an adversarial peer: seeded and enumerated Stepper command tapes vs. the stepper-less reference run",
+        "level_text": "The Stepper callback is an in-run seam driven by a seeded command tape (no-op / next / step in / step out at every consultation); programs are C03 try-nests with "
+                      "an injected builtin failure and template programs with closures, bounded recursion, user and library macros. Result, error and trace are compared with the "
+                      "same program run without a stepper in an identically prepared environment; every (form, scope) handed to the callback is compared with the evaluation step "
+                      "that follows. Now and then all command sequences up to length 4 (thorough: 5) are enumerated for the program at hand.",
+        "level_note": "Trusts the stepper-less run as reference (same interpreter). No scheduler and no clock are involved: the simulated party is the debugger. Single-threaded: no race binary.",
+        "rule": "one run = one seeded program (try-nest with 0-1 injected builtin failure, or 1-3 of 23 templates) x one seeded command tape of up to 120 commands with a drawn bias and tail command; "
+                "about one run in twelve additionally enumerates every command sequence of length <= 4. evaluations counts runs; stepper_runs counts executions with a stepper. "
+                "non-trivial = the callback was consulted and at least one command was drawn; distinct = distinct (program, fault plan, command tape) hash",
+        "assumptions": COMMON_ASSUMPTIONS[:1] + ["ANSWER:/ERROR: lines printed by the evaluator on 'next' are debugger output, not program effects (stdout is redirected)", "programs terminate within the host stack (recursion depth <= 50)"],
+        "must_hit": ["fault:stepper-next", "fault:stepper-in", "fault:stepper-out", "exhaustive_prefix_enumerations"],
+        "race": False,
+    },
 }
